@@ -10,7 +10,8 @@
 //! exits (measured: 200 x `spawn()` + drop of the returned sender leaves 200 parked threads). Instead the router runs on a thread of
 //! ours whose body is the production loop `loop { run_inner() }` expressed through hook H1
 //! (`verif_turn()` = exactly one `run_inner`, returning `false` exactly where production would
-//! block in `recv()`), followed by a short pause; a stop flag ends the thread at the end of the
+//! block in `recv()`), followed by a short pause, repeated until the channel holds an event (as
+//! production stays in `recv()` until then); a stop flag ends the thread at the end of the
 //! case. The pause is pacing only, never a correctness signal.
 //!
 //! Time is real (the router is a foreign thread, tokio's paused clock would auto-advance while
@@ -31,7 +32,7 @@ use std::sync::atomic::{AtomicBool, AtomicU64, Ordering};
 use std::sync::{Arc, Mutex};
 use std::task::{Context, Poll};
 use std::time::{Duration, Instant};
-use tokio::io::{AsyncRead, AsyncReadExt, AsyncWriteExt, DuplexStream};
+use tokio::io::{AsyncRead, AsyncReadExt, AsyncWrite, AsyncWriteExt, DuplexStream};
 use tokio::task::JoinHandle;
 
 /// Generous real-time limit for any single wait. Expiry = inconclusive, never a violation.
@@ -103,9 +104,30 @@ pub struct RouterProbe {
     wake_at: Arc<AtomicU64>,
     /// the thread has left its loop (stop flag or panic of the router)
     exited: Arc<AtomicBool>,
+    /// while set the thread takes no turn: a router that is busy elsewhere, so that its event
+    /// channel backs up (see `Stack::back_up_router`)
+    hold: Arc<AtomicBool>,
+    /// the thread is inside `verif_turn()` (one iteration of the production loop)
+    in_turn: Arc<AtomicBool>,
+    /// kernel id of the router thread (0: unknown, then `blocked_in_turn` never says yes)
+    tid: Arc<AtomicU64>,
 }
 
 impl RouterProbe {
+    /// Is the router thread asleep (state S: waiting for an event, not for a core) inside an
+    /// iteration? Nothing in an iteration waits for another running thread (the locks on the
+    /// link buffers are only ever taken by connection tasks, the production `recv()` is not part
+    /// of `verif_turn`), so this is the router waiting for a link or a client.
+    fn blocked_in_turn(&self) -> bool {
+        let tid = self.tid.load(Ordering::SeqCst);
+        if tid == 0 || !self.in_turn.load(Ordering::SeqCst) {
+            return false;
+        }
+        let stat = std::fs::read_to_string(format!("/proc/self/task/{tid}/stat")).unwrap_or_default();
+        let state = stat.rsplit_once(')').and_then(|(_, rest)| rest.trim_start().chars().next());
+        state == Some('S') && self.in_turn.load(Ordering::SeqCst)
+    }
+
     /// iterations after which a connection was waiting for `Event::Ready`
     pub fn busy_pauses(&self) -> u64 {
         self.busy_pauses.load(Ordering::SeqCst)
@@ -147,9 +169,18 @@ impl RouterThread {
             .name("e5-router".into())
             .spawn(move || {
                 let mut idle = 0u32;
+                let tid = std::fs::read_link("/proc/thread-self").ok().and_then(|p| p.file_name()?.to_str()?.parse::<u64>().ok());
+                probe2.tid.store(tid.unwrap_or(0), Ordering::SeqCst);
                 while !stop2.load(Ordering::Acquire) {
+                    if probe2.hold.load(Ordering::Acquire) {
+                        std::thread::sleep(Duration::from_micros(200));
+                        continue;
+                    }
                     // one iteration of the production loop body
-                    match guard("router_thread", || router.verif_turn()) {
+                    probe2.in_turn.store(true, Ordering::SeqCst);
+                    let turn = guard("router_thread", || router.verif_turn());
+                    probe2.in_turn.store(false, Ordering::SeqCst);
+                    match turn {
                         Ok(true) => {
                             idle = 0;
                             if watch_pauses && router.verif_snapshot().connections.iter().any(|c| c.status == "busy") {
@@ -164,20 +195,29 @@ impl RouterThread {
                             }
                         }
                         Ok(false) => {
-                            // production would block in recv() here
-                            idle = idle.saturating_add(1);
-                            let streak = probe2.idle_streak.fetch_add(1, Ordering::SeqCst) + 1;
-                            let wake_at = probe2.wake_at.load(Ordering::SeqCst);
-                            if probe2.hurry.load(Ordering::SeqCst) && streak <= wake_at {
-                                // the detector counts idle iterations (some microseconds)
-                                if streak == wake_at {
-                                    case_thread.unpark();
+                            // production blocks in recv() here and stays there until an event is
+                            // queued - whatever else the router may still have to do. So does
+                            // this thread: no further iteration before the channel has an event
+                            // (for a correct router the iterations skipped this way do nothing).
+                            // Every look at the channel counts as an idle iteration.
+                            loop {
+                                idle = idle.saturating_add(1);
+                                let streak = probe2.idle_streak.fetch_add(1, Ordering::SeqCst) + 1;
+                                let wake_at = probe2.wake_at.load(Ordering::SeqCst);
+                                if probe2.hurry.load(Ordering::SeqCst) && streak <= wake_at {
+                                    // the detector counts idle iterations (some microseconds)
+                                    if streak == wake_at {
+                                        case_thread.unpark();
+                                    }
+                                    std::hint::spin_loop();
+                                } else if idle < 64 {
+                                    std::thread::yield_now();
+                                } else {
+                                    std::thread::sleep(Duration::from_micros(50));
                                 }
-                                std::hint::spin_loop();
-                            } else if idle < 64 {
-                                std::thread::yield_now();
-                            } else {
-                                std::thread::sleep(Duration::from_micros(50));
+                                if router.verif_pending_events() > 0 || stop2.load(Ordering::Acquire) {
+                                    break;
+                                }
                             }
                         }
                         Err(f) => {
@@ -414,10 +454,23 @@ impl Stack {
 // channel, and the stream is empty. (A task that stays runnable by re-waking itself - tokio's
 // cooperative budget - is polled in every yield and changes `polls` every time.)
 // If quiescence cannot be established within the watchdog the result is inconclusive.
+//
+// The other way a case can come to rest: the router thread itself waits inside an iteration (a
+// blocking send towards a connection task that is blocked writing to a client that does not
+// read). Then neither counter moves and (a) never ends. `RouterProbe::blocked_in_turn` looks at
+// the thread's state: asleep inside `verif_turn()` means waiting for an event that only a
+// connection task (or, through it, a client) can produce. Seen for a whole observation, twice,
+// with the connection tasks given their chance to run in between and none of them runnable
+// (same token), this is a verdict as definite as quiescence: `router_thread_blocked_...`.
 
 /// complete idle iterations of the router that one observation waits for (one suffices for the
 /// argument above; the rest is margin. `RouterProbe::hurry` makes them cost some microseconds)
 pub const QUIET_IDLE_TURNS: u64 = 200;
+/// looks (500 microseconds apart) at a router thread asleep inside one iteration before an
+/// observation ends as `Probe::Stuck`. A sleeping thread waits for an event, not for a core,
+/// so this is not a verdict about speed; the number only keeps a contended allocator lock from
+/// being mistaken for a wait on a connection task.
+const STUCK_LOOKS: u32 = 200;
 /// yields to the scheduler at the start of an observation (one suffices, see (b))
 const QUIET_YIELDS: usize = 2;
 
@@ -433,6 +486,9 @@ pub struct QuietToken {
 pub enum Probe {
     /// something moved or is about to: a task ran, the router worked, bytes arrived
     Activity,
+    /// conditions (b) and (c) held, but the router thread sat asleep inside one and the same
+    /// iteration for the whole observation (STUCK_LOOKS looks)
+    Stuck(QuietToken),
     /// conditions (a)-(c) held
     Quiet(QuietToken),
 }
@@ -486,6 +542,7 @@ impl Stack {
         self.router.hurry.store(true, Ordering::SeqCst);
         let _hurry = Hurry(&self.router.hurry);
         let t0 = Instant::now();
+        let mut stuck = 0u32;
         loop {
             let streak = self.router.idle_streak.load(Ordering::SeqCst);
             if self.router.busy.load(Ordering::SeqCst) != busy {
@@ -497,6 +554,16 @@ impl Stack {
             // the router unparks this thread when one of the two has happened; the timeout only
             // bounds the delay after a missed wake-up
             std::thread::park_timeout(Duration::from_micros(500));
+            // neither has happened: is the router asleep inside an iteration (the same one, as
+            // neither counter moves)?
+            if streak == streak0 && self.router.blocked_in_turn() {
+                stuck += 1;
+                if stuck >= STUCK_LOOKS {
+                    return Ok(Probe::Stuck(QuietToken { polls, busy }));
+                }
+            } else {
+                stuck = 0;
+            }
             if self.router.exited.load(Ordering::SeqCst) {
                 // the router thread is gone; its panic is the verdict of the case
                 return match self.router_failure.lock().unwrap().clone() {
@@ -522,6 +589,7 @@ impl Stack {
     pub async fn next_or_quiescent(&self, c: &mut Conn) -> R<Waited> {
         let t0 = Instant::now();
         let mut seen: Option<QuietToken> = None;
+        let mut stuck: Option<QuietToken> = None;
         loop {
             match c.try_next().await? {
                 Polled::Frame(m) => return Ok(Waited::Frame(m)),
@@ -529,9 +597,21 @@ impl Stack {
                 Polled::Nothing => {}
             }
             match self.quiet_probe(c).await? {
-                Probe::Activity => seen = None,
+                Probe::Activity => (seen, stuck) = (None, None),
                 Probe::Quiet(t) if seen == Some(t) => return Ok(Waited::Quiescent),
-                Probe::Quiet(t) => seen = Some(t),
+                Probe::Quiet(t) => (seen, stuck) = (Some(t), None),
+                // the second time, after the connection tasks had their chance to run and none
+                // was runnable: only a client's action could wake the router thread again
+                Probe::Stuck(t) if stuck == Some(t) => {
+                    return Err(Stop::Fail(Failure::new(
+                        "router_thread_blocked_inside_an_iteration",
+                        format!(
+                            "the router thread sleeps inside one iteration of its loop while no connection task is runnable and {} waits for a frame: it waits for a connection task that itself waits for its client (a client that does not read stops the broker)",
+                            c.name
+                        ),
+                    )))
+                }
+                Probe::Stuck(t) => (seen, stuck) = (None, Some(t)),
             }
             if t0.elapsed() > WATCHDOG {
                 return Err(Stop::Inconclusive(format!(
@@ -542,6 +622,40 @@ impl Stack {
                 )));
             }
         }
+    }
+}
+
+impl Stack {
+    /// Overload: the router stops taking turns and its event channel is filled up to one free
+    /// slot with wake-ups that carry no work (`DeviceData` for a connection with an empty
+    /// buffer). Whatever a connection task hands to the router next has to wait for capacity,
+    /// as it would behind a busy router. A releaser thread lets the router go on as soon as the
+    /// channel has been full for a few milliseconds (somebody is blocked in `send`), or after
+    /// 300 ms in any case; the case body may be blocked inside a connection task's blocking
+    /// `send` meanwhile (current-thread runtime), which is why the release cannot be its job.
+    /// Pacing only: no verdict depends on when the release happens.
+    pub fn back_up_router(&self, wake_id: ConnectionId) -> usize {
+        let hold = self.router.hold.clone();
+        hold.store(true, Ordering::Release);
+        let cap = self.router_tx.capacity().unwrap_or(1000);
+        let mut filled = 0;
+        while self.router_tx.len() + 1 < cap {
+            if self.router_tx.try_send((wake_id, Event::DeviceData)).is_err() {
+                break;
+            }
+            filled += 1;
+        }
+        let tx = self.router_tx.clone();
+        std::thread::spawn(move || {
+            let start = std::time::Instant::now();
+            let mut full = 0;
+            while start.elapsed() < Duration::from_millis(300) && full < 5 {
+                std::thread::sleep(Duration::from_millis(2));
+                full = if tx.len() >= cap { full + 1 } else { 0 };
+            }
+            hold.store(false, Ordering::Release);
+        });
+        filled
     }
 }
 
@@ -609,6 +723,31 @@ impl Conn {
             Ok(Ok(())) => Ok(true),
             Ok(Err(_)) => Ok(false),
             Err(_) => Err(Stop::Inconclusive(format!("write on {}", self.name))),
+        }
+    }
+
+    /// Writes as much of `bytes` as the stream takes without waiting (a connection task that
+    /// does not read, e.g. because it is blocked writing to this client, takes at most the 64
+    /// KiB of the stream); returns the number of bytes written, 0 also when the stream is closed
+    pub async fn send_now(&mut self, bytes: &[u8]) -> usize {
+        let Some(io) = self.io.as_mut() else { return 0 };
+        let mut done = 0;
+        while done < bytes.len() {
+            let rest = &bytes[done..];
+            let polled = tokio::task::coop::unconstrained(std::future::poll_fn(|cx| Poll::Ready(Pin::new(&mut *io).poll_write(cx, rest)))).await;
+            match polled {
+                Poll::Ready(Ok(n)) if n > 0 => done += n,
+                _ => break,
+            }
+        }
+        done
+    }
+
+    /// Closes the client's sending direction only (the broker reads end-of-stream, the client
+    /// could still read)
+    pub async fn shutdown_write(&mut self) {
+        if let Some(io) = self.io.as_mut() {
+            let _ = io.shutdown().await;
         }
     }
 
